@@ -111,6 +111,10 @@ class ThreadPool(object):
                     yield sys.exc_info()
             return
 
+        # each call has queues of its own: results that items of an aborted call (raise mode,
+        # shutdown(force=True)) deliver late must not be taken for results of this call
+        self.task_queue = Queue.Queue()
+        self.result_queue = Queue.Queue()
         self.pool = self._init_pool()
 
         i = 0
